@@ -14,3 +14,7 @@ func raceEnable()                      { runtime.RaceEnable() }
 func raceAcquire(p unsafe.Pointer)      { runtime.RaceAcquire(p) }
 func raceRelease(p unsafe.Pointer)      { runtime.RaceRelease(p) }
 func raceReleaseMerge(p unsafe.Pointer) { runtime.RaceReleaseMerge(p) }
+
+// RaceAcquire / RaceRelease let other simulator packages publish happens-before edges.
+func RaceAcquire(p unsafe.Pointer) { runtime.RaceAcquire(p) }
+func RaceRelease(p unsafe.Pointer) { runtime.RaceReleaseMerge(p) }
